@@ -26,6 +26,7 @@ use std::rc::Rc;
 use vharness::*;
 
 mod oracle_c06;
+mod oracle_c17;
 mod step;
 use step::Step;
 
@@ -557,6 +558,8 @@ fn main() {
     let thorough = tier_is_thorough();
     let mut n_sessions: u64 = if thorough { 6000 } else { 400 };
     let mut ops_per: u64 = if thorough { 80 } else { 60 };
+    let mut c17_queries = false;
+    let mut c17_stats = oracle_c17::Stats::new();
     let mut i = 1;
     while i < args.len() {
         match args[i].as_str() {
@@ -568,6 +571,8 @@ fn main() {
                 ops_per = args[i + 1].parse().unwrap();
                 i += 1;
             }
+            // C17: one `edq` record (all getters, compared with the model) per step
+            "--queries" => c17_queries = true,
             _ => {}
         }
         i += 1;
@@ -576,6 +581,12 @@ fn main() {
     std::panic::set_hook(Box::new(|_| {}));
     let mut out = Out::new();
     let seed = seed_from_env();
+    if args.iter().any(|a| a == "--c17-pairs") {
+        // C17: paired executions only (with/without getters, reset vs fresh, alone vs beside another context)
+        oracle_c17::run_pairs(&mut out, seed, thorough);
+        out.flush();
+        return;
+    }
     let pool = pool();
     out.stat("pool_syllables", pool.len());
     let kb = Qwerty;
@@ -720,6 +731,7 @@ fn main() {
                     };
                     // the properties, evaluated directly on the real editor (one module per property)
                     oracle_c06::check(&mut out, &step);
+                    oracle_c17::after_step(&mut out, &step, &s, c17_queries, &mut c17_stats);
                     out.rec(&format!(
                         "ed {} | {} | {} | {} {} => ok | {} | {} | {}",
                         opstr, pre, dict_pre, lay_ans, conv_ans, post, ret, dict_post
@@ -752,5 +764,6 @@ fn main() {
     out.stat("beh_commit", beh_hist[1]);
     out.stat("beh_bell", beh_hist[2]);
     out.stat("beh_absorb", beh_hist[3]);
+    c17_stats.print(&mut out);
     out.flush();
 }
